@@ -37,6 +37,7 @@ type family struct {
 	// TamperDepth: tampers are tried on candidates whose parent is at depth < TamperDepth
 	TamperDepth int
 	MaxStates   int
+	Budget      time.Duration // wall-clock share of this search (0 = the run's deadline)
 }
 
 // blocks: every sequence of 1..MaxTx op indices, shortest first.
@@ -288,6 +289,9 @@ func scratchDir() string {
 // explore runs the BFS of one family.
 func explore(r *vk.Run, f *family, rootKey string) searchResult {
 	res := searchResult{Stats: map[string]int{}}
+	if f.Budget > 0 {
+		defer r.Limit(f.Budget)()
+	}
 	blocks := f.blocks()
 	seen := map[string][][]int{hashKey(rootKey): nil}
 	frontier := [][][]int{nil}
@@ -402,7 +406,7 @@ func explore(r *vk.Run, f *family, rootKey string) searchResult {
 						}
 					}
 				}
-				r.Violation(key, v.What, map[string]interface{}{"search": f.Name, "trie": f.Trie, "blocks_from_base_state": names(rc.hist),
+				report(key, v.What, map[string]interface{}{"search": f.Name, "trie": f.Trie, "blocks_from_base_state": names(rc.hist),
 					"setup": "see setupBlocks() in harness/cmd/c06/world.go", "rerun": "/verif/check C06 --tier " + r.Tier})
 			}
 			if !o.Committed {
@@ -410,8 +414,14 @@ func explore(r *vk.Run, f *family, rootKey string) searchResult {
 				continue
 			}
 			res.Committed++
-			if len(o.Viol) > 0 {
-				continue // do not expand beyond a violating state
+			hard := false
+			for _, v := range o.Viol {
+				if !v.soft() {
+					hard = true
+				}
+			}
+			if hard {
+				continue // do not expand beyond a state reached through an unexplained violation
 			}
 			if _, ok := seen[o.KeyHash]; ok {
 				continue
@@ -450,4 +460,49 @@ func sortedStats(m map[string]int) []string {
 		out = append(out, fmt.Sprintf("%s=%d", k, m[k]))
 	}
 	return out
+}
+
+// ---- violation buffer: one defect = one key -------------------------------------------------------------------
+
+type pendingViol struct {
+	key, what string
+	replay    interface{}
+}
+
+var pending []pendingViol
+
+func report(key, what string, replay interface{}) {
+	pending = append(pending, pendingViol{key, what, replay})
+}
+
+// flush hands the buffered violations to the run. Conservation keys have the shape clause:token:direction:kinds; when
+// the same (clause, token, direction) shows up under more than three different kind suffixes the defect is not specific
+// to a transaction kind and the keys are merged into clause:token:direction:any-kind.
+func flush(r *vk.Run) {
+	prefixOf := func(k string) (string, bool) {
+		p := strings.SplitN(k, ":", 4)
+		if len(p) == 4 {
+			if _, ok := clauseRank[p[0]]; ok {
+				return strings.Join(p[:3], ":"), true
+			}
+		}
+		return "", false
+	}
+	kinds := map[string]map[string]bool{}
+	for _, v := range pending {
+		if p, ok := prefixOf(v.key); ok {
+			if kinds[p] == nil {
+				kinds[p] = map[string]bool{}
+			}
+			kinds[p][v.key] = true
+		}
+	}
+	for _, v := range pending {
+		key := v.key
+		if p, ok := prefixOf(key); ok && len(kinds[p]) > 3 {
+			key = p + ":any-kind"
+		}
+		r.Violation(key, v.what, v.replay)
+	}
+	pending = nil
 }
